@@ -10,7 +10,12 @@
        $max_k_select_i, ...), pushes one-sided, big-M or selector rows back into its queue and relies on the bound
        analysis (whose box must be, and is proved to be, implied by the domains the compiler emits); the statement is
        a genuine projection: extensions on the auxiliary names exist in one direction and are forgotten in the other.
-   For models with logic nodes the statement below is the target; machine-checked for them are the
+       The same theorem covers logic ASSERTIONS over Boolean variables that the compiler lowers to one affine row
+       (try_lower_affine: a conjunction, disjunction, implication, equivalence, exclusive or or literal over Boolean
+       variables, constants and their negations, asserted true or false): C01_affine_assertion_row says that the row
+       holds exactly when the formula has the asserted value.
+   For models with other logic (reified logic values inside arithmetic, assertions that need witnesses) the statement
+   below is the target; machine-checked for them are the
    *_partial theorems (every lowering arm's row pattern in both directions, the soundness of all facts the rewrites
    rely on, the frame property of the main loop). *)
 From Coq Require Import QArith Reals List String.
@@ -52,8 +57,8 @@ Proof. split; [exact m0_affine|exact m0_compiles]. Qed.
 (* ---- proved end to end on the arithmetic fragment with abs, min and max.  abs_model m: well-formed domains, a declared variable
    that occurs nowhere (it is dropped by the compiler) has a non-empty range, declared bounds not NaN and integer ranges within i32, sides and objective total arithmetic with abs over declared
    names, and the trace condition compile_trace m = true: the objective and every constraint the main loop takes from
-   its queue (source constraints and the rows the arms pushed back) is not an assertion, is not taken by the
-   logic-constraint test and, once rewritten by flatten / simplify, has only arithmetic, abs, min and max nodes over names
+   its queue (source constraints and the rows the arms pushed back) is either an assertion over Boolean variables that
+   try_lower_affine lowers to one row, or is not taken by the logic-constraint test and, once rewritten by flatten / simplify, has only arithmetic, abs, min and max nodes over names
    declared so far.  abs_modelb decides abs_model and is evaluated on every tied model. *)
 Theorem C01_projection_abs :
   forall (m : model) (L : linmodel), abs_model m -> compile m = inr L ->
@@ -112,6 +117,27 @@ Theorem C01_linearize_abs_spec :
   forall n e r s c s', okexp e = true -> INV s -> incl (xvars e) (ukeys s) -> tot e ->
     lin n e r s = inr (c, s') -> lin_spec e r s c s'.
 Proof. exact lin_ok. Qed.
+
+(* ---- proved: the row that replaces an affine logic assertion says exactly that the formula has the asserted truth value,
+   at every assignment giving the Boolean variables of the state 0/1 values; and try_lower_affine is that row *)
+Theorem C01_affine_assertion_row :
+  forall (s : lst) (e : exp) (must : bool) (A : exp) (c : cmp) (B : exp), tla_row s e must = Some (A, c, B) ->
+    plainA A = true /\ plainA B = true /\
+    forall sigma, dom_sat (s_dom s) sigma ->
+      exists b a0 b0, evT sigma e = Some (bnR b) /\ ev sigma e = Some (bnR b) /\ ev sigma A = Some a0 /\ ev sigma B = Some b0 /\
+                      (cmp_holds c a0 b0 <-> b = must).
+Proof. exact tla_row_sem. Qed.
+Theorem C01_try_lower_affine_is_that_row :
+  forall (e : exp) (must : bool) (name : string) (s : lst),
+    try_lower_affine e must name s =
+    match tla_row s e must with
+    | Some (A, c, B) => bind (emit_constraint A c B name) (fun _ => ret true) s
+    | None => inr (false, s)
+    end.
+Proof. exact tla_as_row. Qed.
+(* the premises of the end-to-end theorem are met by a model with four logic assertions next to arithmetic with abs *)
+Theorem C01_projection_logic_nonvacuous : abs_model m5.
+Proof. exact (abs_modelb_sound m5 m5_in_fragment). Qed.
 
 (* ---- proved: affine stage.  On the affine fragment Exp::linearize emits no row, declares no variable and
    returns a context whose value equals the expression's value at every real assignment. *)
